@@ -1,7 +1,7 @@
 """C15 — evaluation is pure: inputs are never modified, results are repeatable.
 
 Proof side: lean/MirModel/Effects.lean (effect language, semantics, abstract interpreter),
-lean/MirProofs/Props/C15.lean (analysis_sound, history_invariant, G-obligations on the program that
+lean/MirProofs/Props/C15.lean (analysis_sound, history_invariant, empty_init_sound, G-obligations on the program that
 harness/translate/effects.py regenerates from the current source).
 
 Runtime side (this file) = validation of the translator + direct oracle on the real code, for every public
@@ -45,9 +45,6 @@ ASSUMPTIONS = [
     "CPython/NumPy semantics of aliasing as modelled by Mir.Effects.Exec (one location per region)",
 ]
 UNPROVED = [
-    "empty_init_sound (initOK => no read of an unfilled np.empty cell): stated as "
-    "Mir.C15.empty_init_sound_statement, unproved; initOK itself is checked on the generated program and "
-    "validated at run time by np.empty poisoning",
     "util.intersect_files: pure on valid inputs (runtime oracle) but not provable by the analysis, which does not "
     "know that the path strings it stores are immutable (listed in Mir.C15.unproved)",
     "bit-identical repeatability of returned values is observed at run time, not modelled (the model proves "
